@@ -231,6 +231,9 @@ def main(argv):
         "known_finding_hits": dict(known_hits),
         "mirror_source_hashes": core.source_hash(prop.mirrors()),
         "exhaustive": bool(getattr(prop, "exhaustive_tiers", {}).get(tier, False)),
+        # inputs built by core.build_array: how many went through an "aged" construction (in-place history, derived by a
+        # position slice / reversing slice of a queried array) instead of a direct one - see core.py
+        "aged_construction": dict(core.AGED),
     })
     extra = getattr(prop, "extra_evidence", None)
     if extra:
